@@ -322,3 +322,53 @@ impl SimNode {
 pub async fn advance(ms: u64) {
     tokio::time::sleep(Duration::from_millis(ms)).await;
 }
+
+/// Human-readable summary of the consensus traffic for slots `from..from+count` (who voted what,
+/// which certificates were broadcast), for violation reports.
+pub fn summarize_consensus(log: &[LogEntry], from: u64, count: u64) -> String {
+    use std::collections::{BTreeMap, BTreeSet};
+    use alpenglow::consensus::ConsensusMessage;
+    let mut per: BTreeMap<u64, BTreeMap<String, BTreeSet<usize>>> = BTreeMap::new();
+    for e in log {
+        match alpenglow::network::deserialize::<ConsensusMessage>(&e.bytes) {
+            Ok(ConsensusMessage::Vote(v)) => {
+                let c = crate::fixtures::votes::classify_vote(&v);
+                if c.slot >= from && c.slot < from + count {
+                    per.entry(c.slot).or_default().entry(c.kind.short().to_string()).or_default().insert(c.signer);
+                }
+            }
+            Ok(ConsensusMessage::Cert(c)) => {
+                let s = c.slot().inner();
+                if s >= from && s < from + count {
+                    per.entry(s).or_default().entry(format!("cert:{:?}", crate::fixtures::votes::cert_kind(&c))).or_default().insert(e.from);
+                }
+            }
+            Err(_) => {}
+        }
+    }
+    format!("{per:?}")
+}
+
+/// `true` iff, among the validators other than `byz`, some voted to notarise a block in `slot`
+/// and some voted to skip it, and no certificate for `slot` was ever broadcast.
+pub fn slot_split(log: &[LogEntry], slot: u64, byz: usize) -> bool {
+    use alpenglow::consensus::ConsensusMessage;
+    let (mut notar, mut skip, mut cert) = (false, false, false);
+    for e in log {
+        match alpenglow::network::deserialize::<ConsensusMessage>(&e.bytes) {
+            Ok(ConsensusMessage::Vote(v)) => {
+                let c = crate::fixtures::votes::classify_vote(&v);
+                if c.slot == slot && c.signer != byz {
+                    match c.kind {
+                        crate::fixtures::votes::VKind::Notar => notar = true,
+                        crate::fixtures::votes::VKind::Skip => skip = true,
+                        _ => {}
+                    }
+                }
+            }
+            Ok(ConsensusMessage::Cert(c)) => cert |= c.slot().inner() == slot,
+            Err(_) => {}
+        }
+    }
+    notar && skip && !cert
+}
